@@ -89,9 +89,9 @@ claimed = {
   technique=SIM + ": recorded-corpus mutation and seeded hostile streams against the real connection handler in-process, fragmenting/slow simulated connections, encode/stream/decode round trips",
   ref="3 C15"),
  "C18": dict(
-  text="A source store built by a seeded history (cache, files, tombstones, un-snapshotted cache) is backed up in full on the still open store (one run in three with an acknowledged write parked inside the backup's own cache snapshot), the stream restored with RestoreShard into a fresh store - the path a shard copy takes - and compared through both read paths, also after a restart of the destination; the source must be unchanged; 0-6 cuts of the stream (tar block boundaries, before the trailer, random offsets) are offered to RestoreShard and must not yield a 'successful' incomplete shard; a time-bounded export/import is compared with the model restricted to the range.",
-  note="the network between source and destination is a buffer cut at seeded offsets; coordinator.Service's CopyShard RPC and the meta handler adding the owner are not run; incremental (since) backups are not explored (file mtimes are real time, the simulation clock is fake); truncated-stream acceptance and the broken time-bounded export are listed known findings",
-  technique=SIM + ": seeded source histories, window-level yield inside the backup's snapshot, stream-cut fault injection, LWW model comparison",
+  text="A source store built by a seeded history (cache, files, tombstones, un-snapshotted cache) is backed up in full on the still open store (one run in three with an acknowledged write parked inside the backup's own cache snapshot), the stream restored with RestoreShard into a fresh store - the path a shard copy takes - and compared through both read paths, also after a restart of the destination; the source must be unchanged; 0-6 cuts of the stream (tar block boundaries, before the trailer, random offsets) are offered to RestoreShard and must not yield a 'successful' incomplete shard; a time-bounded export/import is compared with the model restricted to the range. RPC mode (1 run in 5): two real data nodes on the simulated network; node 1's shard is built by drawn writes with snapshot / compaction / delete steps, the real coordinator.Client sends a copy-shard request to node 2, which fetches the shard from node 1 with a backup-shard request over a connection that fragments, delays, resets or cleanly closes after a drawn number of bytes (or the source has no such shard); the request must return, and a copy reported complete must read exactly like the source.",
+  note="store mode: the network between source and destination is a buffer cut at seeded offsets; the meta handler adding the owner after a copy is not run; incremental (since) backups are not explored (file mtimes are real time, the simulation clock is fake); truncated-stream acceptance and the broken time-bounded export are listed known findings",
+  technique=SIM + ": seeded source histories, window-level yield inside the backup's snapshot, stream-cut and simulated-network fault injection, LWW model comparison",
   ref="3 C18"),
  "C19": dict(
   text="The test binary is built with the race detector. A run starts 2-5 client goroutines at a barrier, each executing its plan-decided sequence of public operations on one shared object: (store) writes to own and shared series, reads, cache snapshots, compactions, deletes and drops of other series, conflicting writes of different types to new fields on one shard of a real tsdb.Store (inmem/tsi1); (handoff) concurrent writers into a real hinted-handoff NodeProcessor while its retry loop delivers on the simulated clock; (meta) the meta state machine applying 5-60 generated commands while snapshots are taken/persisted and readers copy the metadata; (pool) clients of the inter-node connection pool (get, use, return, mark unusable, double close, idle pruning on the simulated clock, pool close). Every operation is stamped with a global sequence number at invoke and return. Oracles: race detector reports; watchdog (clients that never finish = deadlock, with the blocked goroutines); panics and process crashes on goroutines of the code under test; a read contains every write acknowledged before it began and nothing never written; afterwards and after reopening every acknowledged write reads back; a field written with conflicting types holds one type; every handed-off point is delivered; a persisted metadata snapshot decodes and equals the state after some prefix of the commands; the pool never exceeds its bound, hands no connection to two clients or closed, leaks none. Deterministic windows through yield points place (a) a conflicting write between another write's field validation and its field creation / cache write, (b) a second field creation between a creator's lock-free lookup and its lock.",
